@@ -30,6 +30,12 @@ PIPELINES = {
         "drivers": [{"name": "all", "cmd": ["import", "{cases_MC_Cert}", "{cases_MC_Import}", "{out}", "{tier}"], "cases": "MC_Import"}],
         "min_events": 500,
     },
+    "path": {
+        "variants": ["ring"],
+        "mc": [{"module": "MC_Path", "workers": 8}],
+        "drivers": [{"name": "cases", "cmd": ["path-cases", "{cases}", "{out}"], "cases": "MC_Path"}],
+        "min_events": 300,
+    },
     "csrparse": {
         "variants": ["ring"],
         "mc": [{"module": "MC_CsrParse", "workers": 4, "emits": False}],
@@ -108,6 +114,9 @@ PROPS = {
     "C08": _p("model_checking", ["crl"], ["C08."],
               "cases = MC_Crl.Cases: update orderings x issuer key-usage sets x entry shapes; all reason codes x invalidity dates; serial / CRL-number byte-string classes squared; IDP URIs x scopes; 5x5 key-id methods; algorithms; times around the form boundaries in all CRL time fields",
               ops=["Crl"], exhaustive=True),
+    "C12": _p("model_checking", ["path"], ["C12."],
+              "MC_Path.Cases: chains root -> 0..3 intermediates -> leaf, one dimension varied at one position: CA flag variant of each issuer, path length {absent,0,1,2} against depth, verification day before/inside/after each window, permitted/excluded/both DNS and IPv4/IPv6 subtrees (prefixes 0,1,8,9,24,31,32 | 0,1,64,65,127,128) at root or intermediate against leaf names inside/outside/at the subnet boundary, leaf EKU subsets against server/client purpose, CA key-usage sets with/without keyCertSign; each chain is built by rcgen and judged by OpenSSL and webpki where the coverage table (PathValidation!Covered) says the validator's documented semantics cover the dimension",
+              ops=["Validate"], exhaustive=True),
     "C13": _p("model_checking", ["strings"], ["C13."],
               "every Unicode scalar value as a one-character string through every text constructor of the five types (run-length encoded verdicts, judged element by element in TLA+), every 16-bit unit and every 32-bit value < 0x120000 through the byte-level constructors, hand-built and random byte strings (odd lengths, lone/paired surrogates, > U+10FFFF), random multi-character strings with planted outsiders, placement of sampled accepted values in names / alternative names with decoding; distinct by event arguments",
               ops=["StringRuns", "StringBytes", "StringMulti", "StringPlace"], exhaustive=False),
